@@ -58,7 +58,7 @@ Proof.
   destruct (lookup i (l_objs s)) as [o|] eqn:Hl; [|exact Hi].
   pose proof (objs_lookup regok _ _ _ Hi Hl) as Ho.
   assert (Ho1 : regok (fst (if w then sys_write o (op_len p - op_sofar p) else sys_read o (op_len p - op_sofar p)))).
-  { destruct w; [rewrite sys_write_bits; exact Ho|apply sys_read_reg; exact Ho]. }
+  { destruct w; [destruct (sys_write_fields o (op_len p - op_sofar p)) as (A1 & A2 & A3 & A4 & A5 & A6 & A7); apply (regok_bits o); assumption|apply sys_read_reg; exact Ho]. }
   destruct (if w then sys_write o (op_len p - op_sofar p) else sys_read o (op_len p - op_sofar p)) as [o1 r].
   cbn [fst] in Ho1.
   destruct r.
@@ -206,7 +206,7 @@ Proof.
   - exact H1.
   - change (l_objs s1) with (l_objs s). destruct (lookup i (l_objs s)) as [ob|] eqn:Hl; [|exact H1].
     apply reg_set_obj; [exact H1|]. pose proof (objs_lookup regok _ _ _ Hi Hl) as Ho.
-    destruct p; [| destruct (o_kind ob) | | |]; try exact Ho; apply (regok_bits ob); auto.
+    destruct p; [| destruct (o_kind ob) | | | |]; try exact Ho; apply (regok_bits ob); auto.
   - exact H1.
   - apply exec_reg. exact H1.
   - apply exec_reg. exact H1.
